@@ -57,3 +57,45 @@ def upvar_index(t):
     if root == ('param', 1) and names and names[0].startswith('upvar'):
         return int(names[0][5:])
     return None
+
+
+def stores_matching(ctx, body, root, fields):
+    """stores whose address is root.(*)...fields (exact field chain, derefs ignored)"""
+    an = ctx.an(body)
+    out = []
+    for addr, val, pt, kind in an.stores:
+        r, names = field_path(addr)
+        if r == root and names == list(fields):
+            out.append((addr, val, pt, kind))
+    return out
+
+
+def winding_table(ctx, body, R, key, scrut_pred, count_pred):
+    """A5: the match on a Winding value: EvenOdd -> (count & 1) != 0, NonZero -> count != 0.
+    scrut_pred(term) says whether the scrutinee is the right winding value; count_pred(term) whether a term is
+    the crossing counter.  Returns the block where both arms join, or None."""
+    an = ctx.an(body)
+    ms = [m for m in matches(ctx, body, 'Winding') if scrut_pred(m.scrut)]
+    if not ctx.check(len(ms) == 1, R, key + '|winding match', body.loc(), 'one match on the winding rule', 'expected one match on the winding rule, found %d (fail closed)' % len(ms)):
+        return None
+    m = ms[0]
+    ctx.check(m.otherwise is None and set(m.arms) == {'EvenOdd', 'NonZero'}, R, key + '|winding arms', body.loc(), 'arms EvenOdd and NonZero, no wildcard', 'winding match arms are %s with%s wildcard' % (sorted(m.arms), 'out' if m.otherwise is None else ' a live'))
+    for v, tgt in m.arms.items():
+        region = arm_region(an.cfg, m.bb, tgt)
+        vals = []
+        for bi, k, s in body.statements():
+            if bi in region and s['k'] == 'assign' and s.get('ty') == 'bool' and s['rv']['k'] == 'binop':
+                vals.append((an.rvalue_term(bi, k, s['rv']), s))
+        ok = False
+        shown = [fmt(body, t) for t, _ in vals]
+        for t, s in vals:
+            if t[0] == 'bin' and t[1] == 'Ne' and const_val(t[3]) == 0:
+                a = strip_casts(t[2])
+                if v == 'NonZero' and count_pred(a):
+                    ok = True
+                if v == 'EvenOdd' and a[0] == 'bin' and a[1] == 'BitAnd' and (
+                        (count_pred(strip_casts(a[2])) and const_val(a[3]) == 1) or (count_pred(strip_casts(a[3])) and const_val(a[2]) == 1)):
+                    ok = True
+        want = '(count & 1) != 0' if v == 'EvenOdd' else 'count != 0'
+        ctx.check(ok, R, key + '|winding arm ' + v, body.loc(), '%s -> %s' % (v, want), 'the %s arm computes %s, expected %s' % (v, shown or 'nothing', want))
+    return an.cfg.ipdom(m.bb)
